@@ -28,6 +28,18 @@ Ltac decide_if :=
   | |- context [if ?c then _ else _] => let E := fresh "E" in destruct c eqn:E; zb; try lia
   end.
 
+(* The statement skeleton that the hand-written loop models copy, pinned by counts taken from the
+   Go AST: two calls of keep in Partition (the two scans), one gcd and one sliceCheck in Rotate, one
+   indexCheck in At and in PtrAt, one append in each of Chunks / Batches / Stripe, one explicit
+   panic in each of At / Rotate / Chunks / Batches and none in Partition / PtrAt.  An added fast
+   path that calls keep or append again, or a new panic, breaks this lemma. *)
+Lemma structure_counts :
+  n_part_keep_calls = 2 /\ n_rot_gcd_calls = 1 /\ n_rot_check_calls = 1 /\ n_at_check_calls = 1 /\
+  n_ptrat_check_calls = 1 /\ n_chunks_append_calls = 1 /\ n_batches_append_calls = 1 /\
+  n_stripe_append_calls = 1 /\ n_chunks_panic_calls = 1 /\ n_batches_panic_calls = 1 /\
+  n_rot_panic_calls = 1 /\ n_at_panic_calls = 1 /\ n_part_panic_calls = 0 /\ n_ptrat_panic_calls = 0.
+Proof. repeat split. Qed.
+
 Lemma zlen_nonneg {T} (l : list T) : 0 <= zlen l.
 Proof. unfold zlen. lia. Qed.
 
